@@ -551,6 +551,13 @@ def client_state(w, u, cache, loaded_before):
     return base + ('/own-load' if loaded_before and base != 'stateless' else '')
 
 
+WORLD_HOOKS = {}      # label -> f(seed, idx, label, cfg) -> subclass of AWorld to build (additive; harness/impl/c15_tz.py registers its time-zone worlds)
+
+
+def _plain_world(seed, idx, label, cfg):
+    return AWorld
+
+
 def run_world(arg):
     seed, idx, label, n_ops, mode = arg
     from .. import common
@@ -562,7 +569,7 @@ def run_world(arg):
     del _EXECUTORS[:]
     viol = log['violations']
     with R.Scratch(f'w_{label}_{idx}') as sc:
-        w = AWorld(sc, enc=cfg['enc'], chunking=cfg['chunking'], concurrent=cfg['concurrent'], cipher=cfg['cipher'], async_backend=cfg['async_backend'])
+        w = WORLD_HOOKS.get(label, _plain_world)(seed, idx, label, cfg)(sc, enc=cfg['enc'], chunking=cfg['chunking'], concurrent=cfg['concurrent'], cipher=cfg['cipher'], async_backend=cfg['async_backend'])
         w.jitter = rng_for(seed, label, idx, 'clock')
         for x in cfg['users']:
             add_user(w, x['kind'], x['base'], KDFS[x['kdf']], PASSWORDS[x['password']])
